@@ -11,6 +11,7 @@ void Exec::op_construct(const Json& o,const std::string& op){
   long d=o["d"].as_int(3);
   MVec& m=c.mv[t];
   Slot& sl=c.slot[t];
+  memset(sl.mem,(int)(o["junk"].as_int(0xff)&0xff),sizeof sl.mem);   // whatever the object's memory held before: a constructor must not depend on it
   std::string sig=op;
   if(op=="default"){
     begin(op,"C15");
